@@ -383,7 +383,15 @@ static void cs_step(char **tok, int n) {
 		RLC_TRY {
 			bn_new(g); bn_new(nn); bn_new(d); bn_new(r);
 			for (int i = 0; i < 3; i++) { bn_new(x[i]); bn_new(y[i]); bn_new(pp[i]); bn_new(t[i]); bn_new(u[i]); bn_new(z[i]); }
-			cp_rsapsi_gen(g, nn, 192);
+			{
+				/* a fixed modulus (product of two 96-bit safe primes) and generator: generating one costs ten million
+				 * basic blocks of prime search, behind which the protocol itself would never meet a fine schedule */
+				static const uint8_t psi_n[24] = { 0x76, 0xac, 0x6a, 0x29, 0xf6, 0x91, 0x65, 0x2d, 0xbb, 0xb7, 0x91, 0x29, 0x99, 0xcd, 0x3b,
+					0x57, 0x80, 0xa4, 0x73, 0xb1, 0x15, 0x3c, 0xf6, 0xa1 };
+				bn_read_bin(nn, psi_n, sizeof(psi_n));
+				bn_set_dig(g, 4);
+				if (n > 1 && !strcmp(tok[1], "gen")) cp_rsapsi_gen(g, nn, 192);
+			}
 			for (int i = 0; i < 3; i++) { bn_rand(x[i], RLC_POS, 64); bn_rand(y[i], RLC_POS, 65); bn_set_bit(y[i], 64, 1); }
 			bn_copy(y[1], x[2]);
 			cp_rsapsi_ask(d, r, pp, g, nn, (const bn_t *)x, 3);
